@@ -18,13 +18,22 @@ import argparse
 import sys
 
 import sympy
-from sympy.logic.boolalg import to_anf, to_cnf, to_dnf, to_nnf
+from sympy.logic.boolalg import ANFform, to_cnf, to_dnf, to_nnf, truth_table
 
 import qlasskit
 from qlasskit.qlassfun import QlassF
 from qlasskit.tools.utils import parse_str
 
 from .tools import find_last_qlassf
+
+
+def to_anf(expr):
+    """The algebraic normal form of expr, from its truth table: sympy's own to_anf returns a
+    different function when an operand occurs both plain and negated (~(a ^ ~a) -> True) and is
+    exponential on nested trees"""
+    variables = sorted(expr.free_symbols, key=str)
+    values = [int(bool(v)) for _, v in truth_table(expr, variables)]
+    return ANFform(variables, values)
 
 
 def read_input(input_file):
